@@ -27,6 +27,9 @@ func main() {
 	fixed := time.Unix(1700000000, 0).UTC()
 	vtime.Set(func() time.Time { return fixed })
 	debug.SetGCPercent(1000)
+	// the generous GC percentage buys speed; the soft limit keeps a run that holds many large images at once (C07 thorough:
+	// trees at 1 MiB blocks on sixteen workers) from growing until the kernel kills it
+	debug.SetMemoryLimit(24 << 30)
 	log.SetOutput(io.Discard) // the library logs progress lines through the standard logger
 	switch os.Args[1] {
 	case "list":
